@@ -127,6 +127,14 @@ pub fn pump(args: &[String]) {
     }
 }
 
+const DIRECTED: &[&str] = &[
+    "min()", "max()", "sum()", "mul()", "min([])", "max('a')", "sum(true, None)", "mul([1], {})", "1 + max()", "[min(), 2]", "AND[]", "OR[]", "AND 1", "OR 'x'", "AND[1, 'a']",
+    "! 1", "not 'a'", "- 'a'", "+ true", "- []", "1 in 2", "[] in []", "'a' beginWith 1", "1 endWith 'a'", "'' beginWith ''", "1 ++ ++", "'a' ++", "[] --", "true ? 1", "1 ? 2 : 3",
+    "1 / 0", "1 % 0", "1 << 64", "1 >> -1", "1 << 1.5", "1.5 | 1", "9223372036854775808 & 1", "79228162514264337593543950335 + 1", "79228162514264337593543950335 * 2",
+    "0.0000000000000000000000000001 / 10", "x += 1", "x <<= y", "1 = 2", "[a] = 1", "f()", "f(1)()", "x()", "{}()", "{1: 2}[1]", "a.b.c()", "\u{7f}", "a\u{7f}", "12\u{7f}", "f(\u{7f})",
+    "a +\u{7f}", "\u{0}", "'\u{0}'", "\u{1}(", "true()", "True (1)", "false ++", "not", "in", "not in", "a not", "a not b", "? :", ": ?", "a ? b ? c : d : e", "- - - - 1", "! ! ! true",
+];
+
 pub fn pump_list() {
     println!("{}", json!(PUMPS));
 }
@@ -147,7 +155,8 @@ pub fn record(args: &[String]) {
     let progress = args.iter().any(|a| a == "--progress");
     for k in 0..n {
         let ml = if k % 40 == 39 { maxlen * 10 } else { maxlen };
-        let s = lex::random_input(&mut rng, ml);
+        // the first inputs are directed: every built-in applied to no, one and oddly typed arguments (execute must return, C01)
+        let s = if (k as usize) < DIRECTED.len() { DIRECTED[k as usize].to_string() } else { lex::random_input(&mut rng, ml) };
         if k < skip {
             continue; // already examined by an earlier (killed) process: keep the generator in step
         }
